@@ -69,12 +69,11 @@ UpdEnt(d, e, F(_)) == IF e = 0 THEN [d EXCEPT !.world = F(@)] ELSE [d EXCEPT !.e
 UpdSolid(d, e, s, F(_)) == UpdEnt(d, e, LAMBDA x : [x EXCEPT !.solids[s] = F(@)])
 UpdSide(d, e, s, f, F(_)) == UpdSolid(d, e, s, LAMBDA x : [x EXCEPT !.sides[f] = F(@)])
 
+\* (FoldLeft is evaluated iteratively: documents with thousands of brushes must not recurse per element)
 RECURSIVE FlatVis(_)
-FlatVis(seq) == IF seq = <<>> THEN <<>>
-                ELSE <<[id |-> seq[1].id, name |-> seq[1].name, color |-> seq[1].color, nk |-> Len(seq[1].kids)]>>
-                     \o FlatVis(seq[1].kids) \o FlatVis(Tail(seq))
-RECURSIVE FlatSeq(_)
-FlatSeq(ss) == IF ss = <<>> THEN <<>> ELSE ss[1] \o FlatSeq(Tail(ss))
+FlatVis(seq) == FoldLeft(LAMBDA acc, x : acc \o <<[id |-> x.id, name |-> x.name, color |-> x.color, nk |-> Len(x.kids)]>>
+                                              \o FlatVis(x.kids), <<>>, seq)
+FlatSeq(ss) == FoldLeft(LAMBDA acc, x : acc \o x, <<>>, ss)
 SolidsOf(d) == FlatSeq(MapSeq(LAMBDA e : e.solids, EntsOf(d)))
 SidesOf(d) == FlatSeq(MapSeq(LAMBDA s : s.sides, SolidsOf(d)))
 IdsOf(seq) == {seq[i].id : i \in 1..Len(seq)}
@@ -307,7 +306,8 @@ DiffEnt(p, sp, ps, e, g) ==
     \cup C(e.hidden = g.hidden, p \o ".hidden") \cup C(MapIds(ps.group, e.groups) = g.groups, p \o ".groups")
     \cup C(MapIds(ps.vis, e.vis) = g.vis, p \o ".vis") \cup C(e.visShown = g.visShown, p \o ".visShown")
     \cup C(e.visAuto = g.visAuto, p \o ".visAuto") \cup C(e.color = g.color, p \o ".color")
-    \cup C(p = "world" \/ e.logical = g.logical, p \o ".logical")   \* worldspawn has no logicalpos in the file \cup C(e.comments = g.comments, p \o ".comments")
+    \cup C(p = "world" \/ e.logical = g.logical, p \o ".logical")   \* worldspawn has no logicalpos in the file
+    \cup C(e.comments = g.comments, p \o ".comments")
     \cup DiffSeq(e.solids, g.solids, LAMBDA x, y : DiffSolid(sp, ps, x, y), p \o ".solids.count")
 DiffSet(e, g) == UNION {C(e[f] = g[f], "set." \o f) : f \in DOMAIN e}
 DiffVisFlat(e, g) == C(e.name = g.name, "vis.name") \cup C(e.color = g.color, "vis.color") \cup C(e.nk = g.nk, "vis.tree")
@@ -348,4 +348,129 @@ TextClauses(ps, t1, t2) ==
         ELSE IF Len(m) = Len(t2) THEN {"text:" \o m[j].c : j \in {j \in 1..Len(m) : m[j] # t2[j]}}
         ELSE IF i > Len(m) THEN {"text:longer"}
         ELSE {"text:" \o m[i].c}
+
+(* ------------------------------------------------------------ Skeleton: the structure the exported text must have *)
+\* Independent of the reader: the block/key structure of the VMF format for document d under options o, as a
+\* sequence of [t, c, d] (token type, clause label = block path "/" key, depth).  User-chosen names are
+\* abstracted by the tokeniser the same way ("<key>", "replaceNN", "<output>", "row").
+Tk(t, c, dp) == <<[t |-> t, c |-> c, d |-> dp]>>
+KVs(p, dp, ks) == FoldLeft(LAMBDA acc, k : acc \o Tk("kv", p \o "/" \o k, dp), <<>>, ks)
+Rep(n, x) == FoldLeft(LAMBDA acc, k : acc \o x, <<>>, [j \in 1..n |-> j])
+Concat(F(_), seq) == FoldLeft(LAMBDA acc, x : acc \o F(x), <<>>, seq)
+\* block `name` inside path p at depth dp
+Blk(p, dp, name, body) == Tk("open", p \o "/" \o name, dp) \o body \o Tk("close", p \o "/}", dp)
+\* "hidden" wrapper: one level deeper, but not part of the path
+Hid(p, dp, body) == Tk("open", p \o "/hidden", dp) \o body \o Tk("close", p \o "/}", dp)
+Rows(p, dp, name, n) == Blk(p, dp, name, Rep(n, Tk("kv", p \o "/" \o name \o "/row", dp + 1)))
+
+DispSk(o, p, dp, disp) ==
+    LET q == p \o "/dispinfo"
+        size == DispSize(disp.power)
+    IN  Blk(p, dp, "dispinfo",
+            KVs(q, dp + 1, <<"power", "startposition", "flags", "elevation", "subdiv">>)
+            \o Rows(q, dp + 1, "normals", size) \o Rows(q, dp + 1, "distances", size) \o Rows(q, dp + 1, "offsets", size)
+            \o Rows(q, dp + 1, "offset_normals", size) \o Rows(q, dp + 1, "alphas", size)
+            \o Rows(q, dp + 1, "triangle_tags", size - 1)       \* one row per row of quads
+            \o Blk(q, dp + 1, "allowed_verts", Tk("kv", q \o "/allowed_verts/10", dp + 2))
+            \o (IF o.mb /\ HasMB(disp)
+                THEN Rows(q, dp + 1, "multiblend", size) \o Rows(q, dp + 1, "alphablend", size)
+                     \o Rows(q, dp + 1, "multiblend_color_0", size) \o Rows(q, dp + 1, "multiblend_color_1", size)
+                     \o Rows(q, dp + 1, "multiblend_color_2", size) \o Rows(q, dp + 1, "multiblend_color_3", size)
+                ELSE <<>>))
+SideSk(o, p, dp, f) ==
+    LET q == p \o "/side"
+    IN  Blk(p, dp, "side",
+            KVs(q, dp + 1, <<"id", "plane", "material", "uaxis", "vaxis", "rotation", "lightmapscale", "smoothing_groups">>)
+            \o (IF f.points.has
+                THEN Blk(q, dp + 1, "point_data", Tk("kv", q \o "/point_data/numpts", dp + 2)
+                                                  \o Rep(Len(f.points.p), Tk("kv", q \o "/point_data/point", dp + 2)))
+                ELSE <<>>)
+            \o (IF f.disp.power > 0 THEN DispSk(o, q, dp + 1, f.disp) ELSE <<>>))
+\* brushes of the world carry their group / visgroup membership; brushes inside entities do not
+SolidSk(o, p, dp0, s, isWorld) ==
+    LET dp == IF s.hidden THEN dp0 + 1 ELSE dp0
+        q == p \o "/solid"
+        body == Blk(p, dp, "solid",
+                    Tk("kv", q \o "/id", dp + 1)
+                    \o Concat(LAMBDA f : SideSk(o, q, dp + 1, f), s.sides)
+                    \o Blk(q, dp + 1, "editor",
+                           Tk("kv", q \o "/editor/color", dp + 2)
+                           \o (IF isWorld /\ s.group >= 0 THEN Tk("kv", q \o "/editor/groupid", dp + 2) ELSE <<>>)
+                           \o (IF isWorld THEN Rep(Len(s.vis), Tk("kv", q \o "/editor/visgroupid", dp + 2)) ELSE <<>>)
+                           \o KVs(q \o "/editor", dp + 2, <<"visgroupshown", "visgroupautoshown">>)
+                           \o (IF s.cordon THEN Tk("kv", q \o "/editor/cordonsolid", dp + 2) ELSE <<>>)))
+    IN  IF s.hidden THEN Hid(p, dp0, body) ELSE body
+GroupSk(p, dp, g) ==
+    Blk(p, dp, "group", Tk("kv", p \o "/group/id", dp + 1)
+                        \o Blk(p \o "/group", dp + 1, "editor",
+                               KVs(p \o "/group/editor", dp + 2, <<"visgroupshown", "visgroupautoshown", "color">>)))
+EntSk(o, d, e, isWorld) ==
+    LET name == IF isWorld THEN "world" ELSE "entity"
+        dp == IF e.hidden /\ ~isWorld THEN 1 ELSE 0
+        q == "/" \o name
+        nkeys == IF isWorld THEN Cardinality(DOMAIN e.keys \cup {"mapversion"}) ELSE Cardinality(DOMAIN e.keys)
+        body == Blk("", dp, name,
+                    Tk("kv", q \o "/id", dp + 1)
+                    \o Rep(nkeys, Tk("kv", q \o "/<key>", dp + 1))
+                    \o Rep(Cardinality(DOMAIN e.fix), Tk("kv", q \o "/replaceNN", dp + 1))
+                    \o Concat(LAMBDA s : SolidSk(o, q, dp + 1, s, isWorld), e.solids)
+                    \o (IF e.outs # <<>>
+                        THEN Blk(q, dp + 1, "connections", Rep(Len(e.outs), Tk("kv", q \o "/connections/<output>", dp + 2)))
+                        ELSE <<>>)
+                    \o (IF isWorld THEN Concat(LAMBDA g : GroupSk(q, dp + 1, g), d.groups) ELSE <<>>)
+                    \o Blk(q, dp + 1, "editor",
+                           Tk("kv", q \o "/editor/color", dp + 2)
+                           \o (IF isWorld THEN <<>>
+                               ELSE Rep(Len(e.groups), Tk("kv", q \o "/editor/groupid", dp + 2))
+                                    \o Rep(Len(e.vis), Tk("kv", q \o "/editor/visgroupid", dp + 2))
+                                    \o KVs(q \o "/editor", dp + 2, <<"visgroupshown", "visgroupautoshown", "logicalpos">>))
+                           \o (IF e.comments # "" THEN Tk("kv", q \o "/editor/comments", dp + 2) ELSE <<>>)))
+    IN  IF e.hidden /\ ~isWorld THEN Hid("", 0, body) ELSE body
+RECURSIVE VisSk(_, _, _)
+VisSk(p, dp, seq) ==
+    Concat(LAMBDA x : Blk(p, dp, "visgroup", KVs(p \o "/visgroup", dp + 1, <<"name", "visgroupid", "color">>)
+                                            \o VisSk(p \o "/visgroup", dp + 1, x.kids)), seq)
+ViewSk(i, w) ==
+    Blk("/viewsettings/views", 2, CASE i = 1 -> "v0" [] i = 2 -> "v1" [] i = 3 -> "v2" [] i = 4 -> "v3",
+        KVs("/viewsettings/views/v" \o ToString(i - 1), 3,
+            IF w.k = "3d" THEN <<"3d", "position", "angle">> ELSE <<"3d", "position", "zoom">>))
+Skeleton(o, d) ==
+    Blk("", 0, "versioninfo", KVs("/versioninfo", 1, <<"editorversion", "editorbuild", "mapversion", "formatversion", "prefab">>))
+    \o Blk("", 0, "visgroups", VisSk("/visgroups", 1, d.vis))
+    \o (IF o.minimal THEN <<>>
+        ELSE Blk("", 0, "viewsettings",
+                 KVs("/viewsettings", 1, <<"bSnapToGrid", "bShowGrid", "bShowLogicalGrid", "nGridSpacing", "bShow3DGrid">>)
+                 \o (IF d.set.instVis >= 0 THEN Tk("kv", "/viewsettings/nInstanceVisibility", 1) ELSE <<>>)
+                 \o (IF d.set.views # <<>>
+                     THEN Blk("/viewsettings", 1, "views",
+                              FoldLeft(LAMBDA acc, i : acc \o ViewSk(i, d.set.views[i]), <<>>, [j \in 1..Min2(4, Len(d.set.views)) |-> j]))
+                     ELSE <<>>)))
+    \o EntSk(o, d, d.world, TRUE)
+    \o Concat(LAMBDA e : EntSk(o, d, e, FALSE), d.ents)
+    \o (IF o.minimal THEN <<>>
+        ELSE Blk("", 0, "cameras", Tk("kv", "/cameras/activecamera", 1)
+                                   \o Rep(Len(d.cams), Blk("/cameras", 1, "camera", KVs("/cameras/camera", 2, <<"position", "look">>))))
+             \o Blk("", 0, "cordons", Tk("kv", "/cordons/active", 1)
+                                      \o Rep(Len(d.cordons),
+                                             Blk("/cordons", 1, "cordon",
+                                                 KVs("/cordons/cordon", 2, <<"name", "active">>)
+                                                 \o Blk("/cordons/cordon", 2, "box", KVs("/cordons/cordon/box", 3, <<"mins", "maxs">>))))))
+    \o (IF d.set.quickhide > 0 THEN Blk("", 0, "quickhide", Tk("kv", "/quickhide/count", 1)) ELSE <<>>)
+
+\* The two streams are compared top-level block by top-level block (so that one defective block does not hide
+\* the others); per block the clause names the first expected/observed pair of labels that differ.
+TopStarts(s) == SelectSeq([j \in 1..Len(s) |-> j], LAMBDA j : s[j].d = 0 /\ s[j].t = "open")
+SkelClauses(exp, got) ==
+    LET se == TopStarts(exp)
+        sg == TopStarts(got)
+        EndOf(s, starts, b) == IF b < Len(starts) THEN starts[b + 1] - 1 ELSE Len(s)
+        BlockDiff(b) ==
+            LET x == SubSeq(exp, se[b], EndOf(exp, se, b))
+                y == SubSeq(got, sg[b], EndOf(got, sg, b))
+                i == FirstDiff(x, y)
+            IN  IF x = y THEN {}
+                ELSE {"skel:" \o (IF i <= Len(x) THEN x[i].c ELSE "<end>") \o "|" \o (IF i <= Len(y) THEN y[i].c ELSE "<end>")}
+    IN  IF exp = got THEN {}
+        ELSE IF Len(se) # Len(sg) THEN {"skel:blocks"}
+        ELSE UNION {BlockDiff(b) : b \in 1..Len(se)}
 =============================================================================
